@@ -5,9 +5,27 @@ import random
 
 
 def image_iterator(m, meta, n_hist=600):
+    """the text style without a style part, then the graphics styles with a style part in the specifier (method, z-index,
+    compression: what a frame rendered late - skipped by a seek in the first pass, or re-rendered after a size change - must still
+    be rendered with)"""
     import tests  # noqa: F401
+    import term_image.geometry as G
+    from term_image.image import BlockImage, KittyImage, ITerm2Image
+    tests.set_cell_size(G.Size(4, 8))
+    KittyImage._supported = ITerm2Image._supported = True
+    KittyImage._TERM, KittyImage._KITTY_VERSION = "kitty", (0, 30, 0)
+    ITerm2Image._TERM = "iterm2"
+    for cls, spec, n in ((BlockImage, "1.1", n_hist), (KittyImage, "1.1+Wz5c0", n_hist // 4), (KittyImage, "1.1#+Lm1", n_hist // 6), (ITerm2Image, "1.1+Wc9", n_hist // 6)):
+        r = _image_iterator(cls, spec, n)
+        if r["reproduced"]:
+            r["input"] = f"{cls.__name__}, spec {spec!r}: " + r["input"]
+            return r
+    return r
+
+
+def _image_iterator(BlockImage, SPEC, n_hist):
     from PIL import Image
-    from term_image.image import BlockImage, ImageIterator
+    from term_image.image import ImageIterator
     rng = random.Random(9)
     NF = 5
     cols = [(255, 0, 0), (0, 255, 0), (0, 0, 255), (255, 255, 0), (0, 255, 255)]
@@ -24,7 +42,7 @@ def image_iterator(m, meta, n_hist=600):
         im = BlockImage(Image.open(io.BytesIO(data)))
         apply(im, size)
         im.seek(frame)
-        return format(im, "1.1")
+        return format(im, SPEC)
     memo = {}
     for h in range(n_hist):
         repeat = rng.choice([1, 2, 3, -1])
@@ -32,7 +50,7 @@ def image_iterator(m, meta, n_hist=600):
         image = BlockImage(Image.open(io.BytesIO(data)))
         width = (8, None)
         apply(image, width)
-        it = ImageIterator(image, repeat, "1.1", cached=cached)
+        it = ImageIterator(image, repeat, SPEC, cached=cached)
         expect_n, passes, trace = 0, repeat, []
         for step in range(rng.randint(3, 22)):
             op = rng.choice(["next", "next", "next", "seek", "size"])
